@@ -837,6 +837,16 @@ class StmtMixin:
         elif isinstance(h, HStruct):
             for f, r in h.fields.items():
                 self.havoc_heap(r, st, name + "." + f)
+        elif type(h).__name__ == "HBO":
+            # byte-order array: every field gets unknown bytes and an unknown (valid) order code
+            order, raw = {}, {}
+            for k in h.keys():
+                tag = "%s.%s!%d" % (name, k, next(_hc))
+                o = z3.Int(tag + "!order")
+                st.pc.append(z3.And(o >= 0, o <= 3, (o == 3) == (h.order[k] == 3)))
+                order[k] = o
+                raw[k] = z3.Int(tag + "!bytes")
+            st.put(ref, h.replace(order=order, raw=raw))
         elif isinstance(h, HList):
             raise Unsupported("list mutated inside a loop with an invariant (use a typed local)")
         elif isinstance(h, HObj):
